@@ -19,6 +19,18 @@ use crate::database::{
 };
 
 ///
+/// true if the same id is used by more than one row of a list
+///
+fn has_duplicate_id(ids: Vec<&Uid>) -> bool {
+    for (pos, id) in ids.iter().enumerate() {
+        if ids[pos + 1..].iter().any(|other| other.eq(id)) {
+            return true;
+        }
+    }
+    false
+}
+
+///
 /// room database definition that is used for data synchronisation
 ///
 #[derive(Debug, Clone, Serialize, Deserialize)]
@@ -59,6 +71,12 @@ impl RoomNode {
             }
         }
 
+        if has_duplicate_id(self.admin_nodes.iter().map(|user| &user.node.id).collect()) {
+            return Err(Error::InvalidNode(
+                "RoomNode has several admin nodes with the same id".to_string(),
+            ));
+        }
+
         //check authorisation consistency
         if self.auth_edges.len() != self.auth_nodes.len() {
             return Err(Error::InvalidNode(
@@ -84,6 +102,12 @@ impl RoomNode {
                     ))
                 }
             }
+        }
+
+        if has_duplicate_id(self.auth_nodes.iter().map(|auth| &auth.node.id).collect()) {
+            return Err(Error::InvalidNode(
+                "RoomNode has several authorisation nodes with the same id".to_string(),
+            ));
         }
 
         Ok(())
@@ -225,6 +249,12 @@ impl AuthorisationNode {
             }
         }
 
+        if has_duplicate_id(self.right_nodes.iter().map(|right| &right.node.id).collect()) {
+            return Err(Error::InvalidNode(
+                "AuthorisationNode has several Right nodes with the same id".to_string(),
+            ));
+        }
+
         //check user consistency
         if self.user_edges.len() != self.user_nodes.len() {
             return Err(Error::InvalidNode(
@@ -249,7 +279,13 @@ impl AuthorisationNode {
             }
         }
 
-        //check right consistency
+        if has_duplicate_id(self.user_nodes.iter().map(|user| &user.node.id).collect()) {
+            return Err(Error::InvalidNode(
+                "AuthorisationNode has several user nodes with the same id".to_string(),
+            ));
+        }
+
+        //check user admin consistency
         if self.user_admin_edges.len() != self.user_admin_nodes.len() {
             return Err(Error::InvalidNode(
                 "AuthorisationNode Rights edges and nodes have different size".to_string(),
@@ -271,6 +307,17 @@ impl AuthorisationNode {
                     "AuthorisationNode has an invalid Right egde".to_string(),
                 ));
             }
+        }
+
+        if has_duplicate_id(
+            self.user_admin_nodes
+                .iter()
+                .map(|user| &user.node.id)
+                .collect(),
+        ) {
+            return Err(Error::InvalidNode(
+                "AuthorisationNode has several user admin nodes with the same id".to_string(),
+            ));
         }
 
         Ok(())
